@@ -197,6 +197,7 @@ type RunOpts struct {
 	CloneOrd       int                                // order in which NewKnowledgeBaseInstance clones the rules (see Built.InstanceOrd)
 	DefaultChoice  int                                // order choice used beyond Choices (clamped to the number of permutations)
 	CountReads     string                             // when set ("F.P->V"): leaf reads of that accessor are logged as events "read:<key>"
+	DataCtx        ast.IDataContext                   // use this data context (it must hold the world's own objects) instead of a new one
 	Shared         *SharedEngine                      // run on this shared engine value (its MaxCycle / flag apply) instead of a private one
 	OnProbe        func(kind string, id int64, n int) // called at every probe invocation of the world's facts (after the event is logged)
 }
@@ -435,10 +436,14 @@ func RunOn(prog *Program, kb *ast.KnowledgeBase, w *ref.World, opts RunOpts, tr 
 	if tr == nil {
 		tr = &Trace{MaxCycle: opts.MaxCycle}
 	}
-	dc, err := NewDataContext(w)
-	if err != nil {
-		tr.Err = err
-		return tr
+	dc := opts.DataCtx
+	if dc == nil {
+		var err error
+		dc, err = NewDataContext(w)
+		if err != nil {
+			tr.Err = err
+			return tr
+		}
 	}
 	if opts.Removed == nil {
 		opts.Removed = map[string]bool{}
